@@ -16,7 +16,7 @@ TRUSTED = _T
 _ENC = ["src/odfdo/document.py:Document.insert_style,_insert_style_*,_set_automatic_name,_pseudo_style_attribute,get_style,get_styles",
         "src/odfdo/styles.py:Styles.get_style,get_styles,_get_style_contexts", "src/odfdo/content.py:Content.get_style,get_styles,_get_style_contexts",
         "src/odfdo/element.py:Element.get_style,get_styles,_get_style_tagname,_filtered_element(s)", "src/odfdo/utils/xpath_query.py:make_xpath_query", "src/odfdo/style.py:Style.__init__"]
-_STUB = ["/verif/shadow/lxml (symdom)", "h_styles.Doc: Document whose styles/content properties return real Styles/Content parts built over in-memory trees (no zip container)"]
+_STUB = ["/verif/shadow/lxml (symdom)", "memdoc.MemContainer: dict-backed subclass of odfdo.container.Container handed to Document(container); Document.__init__, get_part and the parts run as written, no zip or filesystem"]
 
 OBLIGATIONS = []
 _T_NAMED = {"paragraph": 140, "text": 140, "table-cell": 140, "master-page": 50, "page-layout": 50, "font-face": 60}
